@@ -188,3 +188,60 @@ def _lark_parse(ex, st, args, kwargs, fn):
 
 LIBRARY["global:ahbicht.expressions.condition_expression_parser._parser.parse()"] = _lark_parse
 LIBRARY["global:ahbicht.expressions.ahb_expression_parser._parser.parse()"] = _lark_parse
+
+
+# ---------------------------------------------------------------------------------------------- inspect / contextvars
+@lib("inspect.iscoroutinefunction")
+def _iscoroutinefunction(ex, st, args, kwargs, fn):
+    used(ex, "A-STDLIB inspect.iscoroutinefunction / isawaitable are pure predicates")
+    f = args[0]
+    if isinstance(f, FuncV):
+        import ast as _ast
+        return [(st, sv_bool(isinstance(f.node, _ast.AsyncFunctionDef)))]
+    if isinstance(f, Opaque) and f.data is not None and isinstance(f.data, dict) and "is_async" in f.data:
+        return [(st, SV(mk_b(f.data["is_async"]), "bool"))]
+    return [(st, SV(mk_b(ex.fresh("is_coroutine_function", z3.BoolSort())), "bool"))]
+
+
+def _ctxvar_attr(ex, st, v, attr):
+    return [(st, BuiltinV(f"contextvar.{attr}", v))]
+
+
+ATTR_LIBRARY["contextvar.get"] = _ctxvar_attr
+ATTR_LIBRARY["contextvar.set"] = _ctxvar_attr
+
+
+@lib("contextvars.ContextVar")
+def _contextvar_new(ex, st, args, kwargs, fn):
+    return [(st, Opaque("contextvar", {"name": "ctxvar", "default": kwargs.get("default")}))]
+
+
+LIBRARY["ContextVar"] = _contextvar_new
+
+
+@lib("contextvar.get")
+def _ctx_get(ex, st, args, kwargs, fn):
+    """A-ASYNCIO M4: ContextVar.get returns the value of the variable in the current context (ghost: st.ghost['ctx'])"""
+    used(ex, "A-ASYNCIO")
+    if "ctx" not in st.ghost:
+        st.ghost["ctx"] = ex.fresh_sv("ctx_text_at_entry")
+        st.assume(z3.Or(Sc.is_none(st.ghost["ctx"].t), Sc.is_s(st.ghost["ctx"].t)))
+    return [(st, st.ghost["ctx"])]
+
+
+@lib("contextvar.set")
+def _ctx_set(ex, st, args, kwargs, fn):
+    used(ex, "A-ASYNCIO")
+    st.ghost["ctx"] = args[0]
+    st.log.append(("ctxset", args[0]))
+    return [(st, Opaque("token"))]
+
+
+def inject_provide(ex, st, name, provider):
+    """A-INJECT: @inject.params(p=Provider) calls the bound provider at each call, in the caller's context"""
+    used(ex, "A-INJECT")
+    st.log.append(("inject", name, provider))
+    return Opaque(f"inst:{provider.replace('Provider', '')}")
+
+
+LIBRARY["inject.provide"] = inject_provide
